@@ -43,10 +43,11 @@ class CapStream:
         self.reads += 1
         if self.reads > self.budget:
             raise Spin
-        if n is None or n < 0:
+        whole = n is None or n < 0          # read(): everything up to end of data, whatever the granularity
+        if whole:
             n = len(self.data) - self.pos
         self.max_request = max(self.max_request, n)
-        if self.i < len(self.caps):
+        if self.i < len(self.caps) and not whole:
             n = min(n, max(1, self.caps[self.i]))
         self.i += 1
         chunk = self.data[self.pos:self.pos + n]
